@@ -1,7 +1,7 @@
 """C02 - fit/predict never alter hyper-parameters or caller data, even when fit fails."""
 import z3
 from pyvc.api import Contract, contract
-from pyvc.values import Obj, NdArr, Opaque, z
+from pyvc.values import is_sym, Obj, NdArr, Opaque, z
 from pyvc import models
 from contracts._frames import FrameFit
 
@@ -300,6 +300,14 @@ class PiecewiseFit(FrameFit):
             ("call", "fit") not in s.fields["binner"].events and ("call", "fit") not in s.fields["estimator"].events)
         if "random_state" in s.fields:
             out["hyper_parameter_random_state_unchanged"] = z3.BoolVal(bool(z3.eq(z(s.fields["random_state"]), z(old["params"].get("random_state", s.fields["random_state"])))))
+            if exc is None:
+                # an integer random_state - ANY integer, 0 included - seeds the generator the buckets draw from (C03: the fit then does
+                # not depend on numpy's global generator), and nothing is drawn from the global one
+                made = [t for t in E.trace[old["tl"]:] if t["op"] == "RandomState"]
+                out["integer_random_state_seeds_the_generator_of_the_fit"] = z3.BoolVal(
+                    any(t["seed"] is s.fields["random_state"] or (is_sym(t["seed"]) and z3.eq(z(t["seed"]), z(s.fields["random_state"]))) for t in made))
+                out["nothing_is_drawn_from_the_global_generator"] = z3.BoolVal(
+                    all(t.get("rng") != "Global" for t in E.trace[old["tl"]:] if t["op"] in ("randint", "permutation", "shuffle", "rand")))
         return out
 
 
@@ -319,8 +327,22 @@ class TtrFit(FrameFit):
         return out
 
 
+from contracts import C13 as _c13
+
+
+@contract(_c13.PermTransform.key, "C02")
+class PermTransformFrame(_c13.PermTransform):
+    """frame of the label permutation that TransformedTargetClassifier2.fit / TransformedTargetRegressor2.fit('permute') apply to the
+    caller's targets: the transformed targets are a new array, features and targets given by the caller are not written"""
+    canaries = {}
+
+    def ensures(self, E, a, res, old, gather=False):
+        out = _c13.PermTransform.ensures(self, E, a, res, old)
+        return {k: v for k, v in out.items() if k in ("returns_pair", "features_and_input_untouched")}
+
+
 META = dict(
-    level="proof", assumptions=["A1", "A2", "A6", "A7", "A8", "A9"],
+    level="proof", lean_files=["lemmas/Sums.lean"], assumptions=["A1", "A2", "A6", "A7", "A8", "A9"],
     trusted=["every call into scikit-learn / an inner estimator may raise at that point (one exceptional path per call) and otherwise behaves as its "
              "assumed contract; in-repo steps treated as opaque here: constraint_kmeans, _fit_reglin, _fit_l1, clone_with_fitted_parameters, "
              "assert_estimator_equal (they may raise, they do not touch hyper-parameters: not verified here)",
